@@ -25,6 +25,8 @@ import (
 //	close   tr.Close(delta)
 //	smfadd  s.Add(tr)        (the local track is not touched afterwards)
 //	append  s.Tracks = append(s.Tracks, tr)   (public field)
+//	write   s.WriteTo(scratch)  in the middle of the history (auto-closes open tracks of the value)
+//	reload  s = ReadFrom(bytes written by s.WriteTo)   (continue building on a value that was read)
 type APIOp struct {
 	Op    string     `json:"op"`
 	Delta uint32     `json:"delta,omitempty"`
@@ -38,8 +40,13 @@ type APIHist struct {
 	FPS    uint8   `json:"fps"`    // 24/25/29/30 => SMPTE
 	Sub    uint8   `json:"sub"`
 	NoRS   bool    `json:"no_running_status"`
+	Logger bool    `json:"logger,omitempty"` // set the public Logger field (to a logger that discards)
 	Ops    []APIOp `json:"ops"`
 }
+
+type discardLogger struct{}
+
+func (discardLogger) Printf(format string, vals ...interface{}) {}
 
 // Model is the reference model of the SMF value (refsmfvalue in DESIGN.md).
 type Model struct {
@@ -76,6 +83,9 @@ func (h *APIHist) Build() (s *smf.SMF, m *Model, mismatch string) {
 		m.Division = h.Metric
 	}
 	s.NoRunningStatus = h.NoRS
+	if h.Logger {
+		s.Logger = discardLogger{}
+	}
 
 	var cur *smf.Track
 	var mcur []ref.Event
@@ -114,6 +124,36 @@ func (h *APIHist) Build() (s *smf.SMF, m *Model, mismatch string) {
 			cur.Close(op.Delta)
 			if !trackClosed(mcur) {
 				mcur = append(mcur, eotEvent(op.Delta))
+			}
+		case "write", "reload":
+			if len(m.Tracks) == 0 {
+				continue // writing a value without tracks fails and changes nothing
+			}
+			var bf bytes.Buffer
+			if _, err := s.WriteTo(&bf); err != nil {
+				mismatch = fmt.Sprintf("op %d: intermediate WriteTo failed: %v", i, err)
+				continue
+			}
+			// writing closes the open tracks of the value and promotes the format
+			for ti := range m.Tracks {
+				if !trackClosed(m.Tracks[ti]) {
+					m.Tracks[ti] = append(m.Tracks[ti], eotEvent(0))
+				}
+			}
+			if len(m.Tracks) > 1 && m.Format == 0 {
+				m.Format = 1
+			}
+			if op.Op == "reload" {
+				back, err := smf.ReadFrom(bytes.NewReader(bf.Bytes()))
+				if err != nil {
+					mismatch = fmt.Sprintf("op %d: re-reading the intermediate file failed: %v", i, err)
+					continue
+				}
+				back.NoRunningStatus = h.NoRS
+				if h.Logger {
+					back.Logger = discardLogger{}
+				}
+				s = back
 			}
 		case "smfadd", "append":
 			if cur == nil {
@@ -281,8 +321,18 @@ func (o readOutcome) kind() string {
 	}
 }
 
+// readFrom reads through a step-limited wrapper that exposes a Seek method exactly when
+// the source has one (the library may look for it).
 func readFrom(r io.Reader, nbytes int, alloc bool) readOutcome {
 	var o readOutcome
+	if sk, ok := r.(io.Seeker); ok {
+		sl := &stepLimitSeeker{stepLimitReader: stepLimitReader{r: r, left: 16*nbytes + 4096}, s: sk}
+		o.call = guarded(libBudget, alloc, func() {
+			o.s, o.err = smf.ReadFrom(sl)
+		})
+		o.steps = sl.blown
+		return o
+	}
 	sl := &stepLimitReader{r: r, left: 16*nbytes + 4096}
 	o.call = guarded(libBudget, alloc, func() {
 		o.s, o.err = smf.ReadFrom(sl)
@@ -311,17 +361,19 @@ func (s *stepLimitSeeker) Seek(off int64, whence int) (int64, error) {
 	return s.s.Seek(off, whence)
 }
 
-// readSeekable reads from a source that also implements io.Seeker.
+// readSeekable reads from a source that also implements io.Seeker (bytes.Reader does).
 func readSeekable(b []byte, alloc bool) readOutcome {
-	var o readOutcome
-	br := bytes.NewReader(b)
-	sl := &stepLimitSeeker{stepLimitReader: stepLimitReader{r: br, left: 16*len(b) + 4096}, s: br}
-	o.call = guarded(libBudget, alloc, func() {
-		o.s, o.err = smf.ReadFrom(sl)
-	})
-	o.steps = sl.blown
-	return o
+	return readFrom(bytes.NewReader(b), len(b), alloc)
 }
+
+// readUnseekable hides everything but Read.
+func readUnseekable(b []byte, alloc bool) readOutcome {
+	return readFrom(plainReader{bytes.NewReader(b)}, len(b), alloc)
+}
+
+type plainReader struct{ r io.Reader }
+
+func (p plainReader) Read(b []byte) (int, error) { return p.r.Read(b) }
 
 type writeOutcome struct {
 	size int64
@@ -503,6 +555,10 @@ func genAPIHist(r *core.Rand, tier string, max32 bool, allowHuge ...bool) *APIHi
 		h.Metric = uint16(r.PickInt(1, 2, 24, 96, 127, 128, 255, 256, 480, 960, 15360, 32767, r.Range(1, 32767)))
 	}
 	h.NoRS = r.Chance(1, 3)
+	allowMid := len(allowHuge) > 0 && allowHuge[0]
+	if allowMid {
+		h.Logger = r.Chance(1, 6)
+	}
 	big := tier == "thorough" && r.Chance(1, 6)
 	// now and then one track body crosses 65535 bytes (chunk length needs a third byte)
 	hugeTrack := -1
@@ -568,6 +624,14 @@ func genAPIHist(r *core.Rand, tier string, max32 bool, allowHuge ...bool) *APIHi
 			h.Ops = append(h.Ops, APIOp{Op: "append"})
 		} else {
 			h.Ops = append(h.Ops, APIOp{Op: "smfadd"})
+		}
+		// now and then the value is written (or written and read back) before it is complete
+		if allowMid && t < nTracks-1 && r.Chance(1, 6) {
+			if r.Chance(1, 3) {
+				h.Ops = append(h.Ops, APIOp{Op: "reload"})
+			} else {
+				h.Ops = append(h.Ops, APIOp{Op: "write"})
+			}
 		}
 	}
 	return h
